@@ -38,7 +38,7 @@ def bounds(tier):
     if tier == "quick":
         return {"base_length": "3..5 (refinement: 1 inserted sample), 2..5 (negation, affine), 4..5 with <= 2 NaN, series 4"}
     return {"base_length": "3..6 (refinement: 1 inserted sample), 3..4 (2 inserted samples), 2..7 (negation, affine), "
-                           "4..6 with <= 2 NaN, series 5"}
+                           "4..6 with <= 2 NaN and 7..8 with 3-4 NaN, series 5"}
 
 
 prepare = C.prepare
@@ -63,6 +63,12 @@ def cases(tier):
         for n in range(4, (5 if q else 6) + 1):
             for k in (1, 2):
                 for nanpos in itertools.combinations(range(1, n - 1), k):
+                    out.append({"rel": "nan", "det": det, "n": n, "nan": list(nanpos), "_weight": 5 ** (n - k)})
+        # longer dropouts: runs and scattered groups of 3 and 4 NaNs
+        for n in ((7,) if q else (7, 8)):
+            for k in (3, 4):
+                combos = list(itertools.combinations(range(1, n - 1), k))
+                for nanpos in (combos[::3] if q else combos):
                     out.append({"rel": "nan", "det": det, "n": n, "nan": list(nanpos), "_weight": 5 ** (n - k)})
         for kind in ("range", "shuffled_int", "float", "datetime", "string"):
             out.append({"rel": "series", "det": det, "n": 4 if q else 5, "index": kind, "_weight": 5 ** 4})
